@@ -24,6 +24,7 @@ func ingesterFuncs(p *Program) []*ssa.Function {
 }
 
 func checkC16(p *Program, r *Reporter) {
+	unitsRuleByName(p, r, "(*cmafIngester).start", "calcSegmentAvailabilityTime")
 	r.Explanation = "Static analysis of structural necessary conditions of C16: (a) request typestate: every *http.Request the ingester creates passes setReqHeaders before it is sent, and setReqHeaders sets the ingest version header unconditionally, a content type for each media kind and credentials exactly when both are configured; " +
 		"(b) no media segment is sent unless all init segments were sent successfully (the error counter is incremented on the error side and its test dominates every media send); (c) every select in the session loop has a context-cancellation arm, and the delete handler calls the session's cancel function on every successful path, whatever the session state; " +
 		"(d) each representation's $Time$ address comes from timeline entries generated for that very representation; media segments are produced by the generator the HTTP handler uses; (e) the session tables are accessed under a lock wherever concurrent API calls can write them (E2; unsynchronised today: known findings). " +
@@ -64,6 +65,9 @@ func checkC16(p *Program, r *Reporter) {
 				}
 			}
 		}
+	}
+	if cat := p.lookupFunc(pkgApp, "calcSegmentAvailabilityTime"); cat != nil {
+		generationInstantRule(p, r, start, sms, cat)
 	}
 	// (a) typestate
 	r.Rule("E5-HEADERS", "every request the ingester creates passes setReqHeaders before it is sent", 3)
